@@ -227,12 +227,20 @@ def check(ctx, replay=None):
                     traces.append((eff_fault, strace_events(res["strace"], os.path.basename(res["target"]), eff_fault), res))
     # "the file is missing / cannot be read", realised in more ways than a missing name: the policy path is a directory, a file whose
     # read fails (EIO from /proc/self/mem), an empty file, a path below a file (ENOTDIR), a dangling symbolic link
+    # (a usable policy named like the command's default lies next to the sandbox binary, as after an in-place build: a missing file of
+    # that name elsewhere is still a missing file)
+    with open(os.path.join(d, "seccomp.yml"), "w") as f:
+        f.write(GOOD)
+    os.chmod(os.path.join(d, "seccomp.yml"), 0o644)
     os.makedirs(os.path.join(scratch, "adir"), exist_ok=True)
     open(os.path.join(scratch, "empty.yml"), "w").close()
     if not os.path.islink(os.path.join(scratch, "dangling.yml")):
         os.symlink(os.path.join(scratch, "nowhere.yml"), os.path.join(scratch, "dangling.yml"))
     for what, path in (("a directory", os.path.join(scratch, "adir")), ("a file whose read fails", "/proc/self/mem"), ("an empty file", os.path.join(scratch, "empty.yml")),
-                       ("a path below a regular file", os.path.join(scratch, "empty.yml", "x.yml")), ("a dangling symbolic link", os.path.join(scratch, "dangling.yml"))):
+                       ("a path below a regular file", os.path.join(scratch, "empty.yml", "x.yml")), ("a dangling symbolic link", os.path.join(scratch, "dangling.yml")),
+                       ("a missing file named like the default policy, in a missing directory", os.path.join(scratch, "no-such-dir", "seccomp.yml")),
+                       ("a missing file named like the default policy, in an existing directory", os.path.join(scratch, "adir", "seccomp.yml")),
+                       ("a missing file named like the default policy, relative to the working directory", "seccomp.yml")):
         idx += 1
         res = run_sandbox(d, scratch, "none", idx, policy_path=path)
         ctx.cov["evaluations"] += 1
